@@ -13,9 +13,10 @@ from .model import AnalysisError, Func, head
 
 
 class N:
-    __slots__ = ("id", "kind", "ast", "tag", "owner")
+    __slots__ = ("id", "kind", "ast", "tag", "owner", "val")
 
     def __init__(self, id, kind, node, tag=None, owner=None):
+        self.val = None  # flag valuation (dict) in a flag-refined graph
         self.id = id
         self.kind = kind  # stmt | test | loop | with_enter | with_exit | dispatch | handler | entry | exit | raise_exit | join
         self.ast = node
@@ -60,7 +61,7 @@ def any_call_may_raise(node):
 
 
 class CFG:
-    def __init__(self, func: Func, may_raise=None, yield_raises=None):
+    def __init__(self, func: Func, may_raise=None, yield_raises=None, refine_flags=True):
         self.func = func
         self.may_raise = may_raise or default_may_raise
         self.yield_raises = func.is_contextmanager if yield_raises is None else yield_raises
@@ -76,6 +77,8 @@ class CFG:
         body = func.node.body if not isinstance(func.node, ast.Lambda) else [ast.Return(value=func.node.body)]
         first = self._block(body, k)
         self._edge(self.entry, first, "n")
+        if refine_flags:
+            self._refine_flags()
 
     # ---------------------------------------------------------------- construction
     def _new(self, kind, node, tag=None, owner=None):
@@ -240,6 +243,113 @@ class CFG:
         tn = self._new("try", s)
         self._edge(tn, self._block(s.body, kb), "n")
         return tn
+
+    # ---------------------------------------------------------------- flag sensitivity
+    def _flag_vars(self):
+        """Local variables of this function that only ever hold the constants True/False (control flags)."""
+        fn = self.func.node
+        if isinstance(fn, ast.Lambda):
+            return []
+        cands = {}
+        computed = set()
+        bad = set(self.func.params) | set(self.func.nonlocals) | set(getattr(self.func, "globals_", ()))
+        for n in self.func.own_nodes():
+            if isinstance(n, ast.Assign) and len(n.targets) == 1 and isinstance(n.targets[0], ast.Name):
+                v = n.value
+                if isinstance(v, ast.Constant) and isinstance(v.value, bool):
+                    cands.setdefault(n.targets[0].id, []).append(n)
+                elif isinstance(v, (ast.Compare, ast.BoolOp)) or (isinstance(v, ast.UnaryOp) and isinstance(v.op, ast.Not)):
+                    # a flag computed from a condition: both outcomes are followed (and remembered)
+                    cands.setdefault(n.targets[0].id, []).append(n)
+                    computed.add(n.targets[0].id)
+                else:
+                    bad.add(n.targets[0].id)
+            elif isinstance(n, ast.Name) and isinstance(n.ctx, (ast.Store, ast.Del)):
+                pass
+        # any other binding form (for target, with-as, augmented, tuple unpacking, nested nonlocal) disqualifies
+        for n in self.func.own_nodes():
+            if isinstance(n, ast.Name) and isinstance(n.ctx, (ast.Store, ast.Del)) and n.id in cands:
+                if not any(a.targets[0] is n for a in cands[n.id]):
+                    bad.add(n.id)
+        for g in self.func.all_nested():
+            bad |= set(g.nonlocals)
+        # a computed flag is worth tracking only if it is also branched on
+        tested = set()
+        for n in self.func.own_nodes():
+            if isinstance(n, (ast.If, ast.While)):
+                t = n.test
+                while isinstance(t, ast.UnaryOp) and isinstance(t.op, ast.Not):
+                    t = t.operand
+                if isinstance(t, ast.Name):
+                    tested.add(t.id)
+        return sorted(x for x in cands if x not in bad and (x not in computed or x in tested))
+
+    def _refine_flags(self):
+        """Product of the graph with the values of the control flags: a branch on `flag` / `not flag` is followed only
+        in the direction the flag's current value allows, so `done = True ... while not done` or
+        `committed = True ... finally: if not committed: cleanup()` are analysed as the control flow they are."""
+        flags = self._flag_vars()
+        if not flags or len(flags) > 3:
+            return
+        idx = {f: i for i, f in enumerate(flags)}
+
+        def test_flag(node):
+            t = node.ast.test if node.kind in ("test", "loop") and hasattr(node.ast, "test") else None
+            if node.kind == "loop" and not isinstance(node.ast, ast.While):
+                return None
+            pol = True
+            while isinstance(t, ast.UnaryOp) and isinstance(t.op, ast.Not):
+                t, pol = t.operand, not pol
+            if isinstance(t, ast.Name) and t.id in idx:
+                return t.id, pol
+            return None
+
+        old_nodes, old_succ = self.nodes, self.succ
+        entry0, exit0, rexit0 = self.entry, self.exit, self.raise_exit
+        self.nodes, self.succ, self.pred, self.by_ast = [], {}, {}, {}
+        made = {}
+
+        def get(n, val):
+            if n is exit0 or n is rexit0:
+                val = None
+            key = (n, val)
+            if key not in made:
+                made[key] = self._new(n.kind, n.ast, n.tag, n.owner)
+                made[key].val = dict(zip(flags, val)) if val is not None else None
+            return made[key]
+        init = tuple(None for _ in flags)
+        self.entry = get(entry0, init)
+        self.exit = get(exit0, None)
+        self.raise_exit = get(rexit0, None)
+        work = [(entry0, init)]
+        seen = {(entry0, init)}
+        while work:
+            n, val = work.pop()
+            src = get(n, val)
+            tf = test_flag(n)
+            for b, lab in old_succ[n]:
+                nv = val
+                if tf is not None and lab in ("t", "f") and val[idx[tf[0]]] is not None:
+                    truth = val[idx[tf[0]]] if tf[1] else (not val[idx[tf[0]]])
+                    if (lab == "t") != truth:
+                        continue
+                nvs = [nv]
+                if n.kind == "stmt" and isinstance(n.ast, ast.Assign) and lab == "n" and len(n.ast.targets) == 1 \
+                        and isinstance(n.ast.targets[0], ast.Name) and n.ast.targets[0].id in idx:
+                    outcomes = [bool(n.ast.value.value)] if isinstance(n.ast.value, ast.Constant) else [True, False]
+                    nvs = []
+                    for oc in outcomes:
+                        lst = list(val)
+                        lst[idx[n.ast.targets[0].id]] = oc
+                        nvs.append(tuple(lst))
+                for nv in nvs:
+                    dst = get(b, nv)
+                    self._edge(src, dst, lab)
+                    key = (b, None if (b is exit0 or b is rexit0) else nv)
+                    if key not in seen and b is not exit0 and b is not rexit0:
+                        seen.add(key)
+                        work.append((b, nv))
+        self.flags_refined = flags
 
     # ---------------------------------------------------------------- queries
     def of(self, node):
